@@ -175,8 +175,14 @@ func IDs(t *rapid.T, g *kernel.Grid, maxN int, maxID int) []int {
 	n := rapid.IntRange(1, min(maxN, top+1)).Draw(t, "nIDs")
 	seen := map[int]bool{}
 	var ids []int
+	// one case in four starts from the deepest tile matrices: pixels of millimetres at ordinates of 1e5..2e7 are where
+	// floating point helpers of the tool lose their precision (finding F16), and rapid's ranges favour small values
+	deep := rapid.IntRange(0, 3).Draw(t, "deepIDs") == 2
 	for len(ids) < n {
 		id := rapid.IntRange(0, top).Draw(t, "id")
+		if deep && len(ids) == 0 {
+			id = top - id%min(4, top+1)
+		}
 		for seen[id] { // construction, not rejection: take the next free one
 			id = (id + 1) % (top + 1)
 		}
